@@ -449,14 +449,19 @@ impl Tee {
                             skip.push("tabs");
                         }
                         if let Some(d) = exp.diff(&post, &skip) {
-                            chk.fail(
-                                op.owner(),
-                                "model-mismatch",
-                                &op,
-                                format!("expected vs actual: {}", d),
-                            );
-                            if let Some(co) = component_owner(&d) {
-                                if co != op.owner() {
+                            // the operation's own property answers for the components its
+                            // statement covers, the component's owner for the component
+                            let mut skip2 = skip.clone();
+                            skip2.extend_from_slice(uncovered(&op));
+                            let own = exp.diff(&post, &skip2);
+                            let co = component_owner(&d);
+                            if let Some(d2) = &own {
+                                chk.fail(op.owner(), "model-mismatch", &op, format!("expected vs actual: {}", d2));
+                            } else if co.is_none() {
+                                chk.fail(op.owner(), "model-mismatch", &op, format!("expected vs actual: {}", d));
+                            }
+                            if let Some(co) = co {
+                                if co != op.owner() || own.is_none() {
                                     chk.fail(co, "model-mismatch", &op, format!("expected vs actual: {}", d));
                                 }
                             }
@@ -1010,15 +1015,17 @@ pub fn component_owner(diff: &str) -> Option<&'static str> {
     }
 }
 
-fn owners_of(events: &[Op]) -> Vec<&'static str> {
-    let mut v: Vec<&'static str> = vec!["C03"];
-    for e in events {
-        let o = e.owner();
-        if !v.contains(&o) {
-            v.push(o);
-        }
+/// Components of the state about which the statement owning `op` says nothing (neither an
+/// effect nor "nothing else changes"): a difference there is not that property's violation and
+/// is charged only to the property that owns the component.
+pub fn uncovered(op: &Op) -> &'static [&'static str] {
+    match op {
+        // C16 lists content, size, scrolling region, cursor and dirty rows
+        Op::Resize(..) => &["tabs", "attr", "hidden", "modes", "title", "charset", "saves", "savedepth", "savedcols"],
+        // C12: the modes themselves and, for DECCOLM, width, content and cursor; tab stops are C18's
+        Op::Sm(..) | Op::Rm(..) => &["tabs"],
+        _ => &[],
     }
-    v
 }
 
 /// Run a history on the real implementation with the stepwise oracles of `cfg`.
@@ -1088,12 +1095,28 @@ fn run_on_opt(term: &mut Term, case: &Case, from: usize, cfg: &Cfg, direct: bool
     let mut extra_fails: Vec<Failure> = Vec::new();
     let mut extra_stats = Stats::default();
     extra_stats.cases = 1;
+    let mut osc_open = false;
+    let mut esc_open = false;
 
     'ops: for (i, op) in case.ops.iter().enumerate().skip(from) {
         let is_feed = op.is_feed();
         let pre = if is_feed && cfg.e2e && cfg.model { Some(term.snap()) } else { None };
         let events = term.ref_events(op);
         let fails_before = lock(&term.tee).chk.as_ref().map_or(0, |c| c.fails.len());
+        let foreign_before: u64 = lock(&term.tee).chk.as_ref().map_or(0, |c| c.stats.foreign.values().sum());
+        // is this feed (part of) an OSC string?  (C19 answers for everything such a feed does)
+        let osc_feed = osc_open
+            || match op {
+                Op::FeedStr(s) => s.contains("\x1b]") || s.contains('\u{9d}') || (esc_open && s.starts_with(']')),
+                Op::FeedBytes(b) => {
+                    b.windows(2).any(|w| w == b"\x1b]") || b.contains(&0x9d) || (esc_open && b.first() == Some(&b']'))
+                }
+                _ => false,
+            };
+        if is_feed {
+            osc_open = term.rp.in_osc() || term.rb.in_osc();
+            esc_open = term.rp.after_esc() || term.rb.after_esc();
+        }
         {
             let mut t = lock(&term.tee);
             if let Some(c) = t.chk.as_mut() {
@@ -1114,10 +1137,13 @@ fn run_on_opt(term: &mut Term, case: &Case, from: usize, cfg: &Cfg, direct: bool
             break 'ops;
         }
         let fails_after = lock(&term.tee).chk.as_ref().map_or(0, |c| c.fails.len());
+        let foreign_after: u64 = lock(&term.tee).chk.as_ref().map_or(0, |c| c.stats.foreign.values().sum());
 
         // ---- end-to-end: reference recogniser + model vs real parser + screen ----
         if let Some(pre) = pre {
-            if fails_after == fails_before && invariant_ok(&pre) {
+            // a stepwise mismatch inside this feed (also one that belongs to another property and
+            // was only counted) already explains a different end state and has its owner
+            if fails_after == fails_before && foreign_after == foreign_before && invariant_ok(&pre) {
                 let mut exp = pre.clone();
                 let mut unknown = false;
                 let mut free_cursor = false;
@@ -1146,10 +1172,18 @@ fn run_on_opt(term: &mut Term, case: &Case, from: usize, cfg: &Cfg, direct: bool
                     extra_stats.evaluations += 1;
                     if let Some(d) = exp.diff(&post, &skip) {
                         let ev: Vec<String> = normalise(&events).iter().map(pretty_op).collect();
-                        let owners: Vec<&str> = if cfg.e2e_all {
+                        let owners: Vec<&str> = if cfg.e2e_all && osc_feed {
                             vec![cfg.target.as_str()]
                         } else {
-                            let mut o = owners_of(&events);
+                            // an event's property answers only for the components it covers
+                            let mut o: Vec<&str> = vec!["C03"];
+                            for e in &events {
+                                let mut sk2 = skip.clone();
+                                sk2.extend_from_slice(uncovered(e));
+                                if exp.diff(&post, &sk2).is_some() && !o.contains(&e.owner()) {
+                                    o.push(e.owner());
+                                }
+                            }
                             if let Some(co) = component_owner(&d) {
                                 if !o.contains(&co) {
                                     o.push(co);
